@@ -67,6 +67,18 @@ ExhaustedForever == [][Exhausted => Exhausted']_vars
 \* everything is yielded before None
 CompleteBeforeNone == (ItNextOut(S, it) = NONE \/ ItBackOut(S, it) = NONE) => Len(front) + Len(back) = n
 
+\* the skipping calls (Iterator::nth, DoubleEndedIterator::nth_back) are k + 1 plain calls of which
+\* only the last answer is kept: TraceLib judges overridden nth / nth_back with ItNth / ItNthBack
+RECURSIVE NextK(_, _)
+NextK(x, k) == IF k = 0 THEN x ELSE NextK(ItNext(S, x), k - 1)
+RECURSIVE BackK(_, _)
+BackK(x, k) == IF k = 0 THEN x ELSE BackK(ItBack(S, x), k - 1)
+NthIsRepeatedNext == \A k \in 0..4 :
+    /\ ItNth(S, it, k) = NextK(it, k + 1)
+    /\ ItNthOut(S, it, k) = ItNextOut(S, NextK(it, k))
+    /\ ItNthBack(S, it, k) = BackK(it, k + 1)
+    /\ ItNthBackOut(S, it, k) = ItBackOut(S, BackK(it, k))
+
 NoHist == <<n, it, front, back>>
 
 Emit == Len(hist) = n + Extra => PrintT(<<"BEH", ToJson([n |-> n, ops |-> hist])>>)
